@@ -11,6 +11,7 @@ JM = importlib.import_module("chuk_mcp.protocol.messages.json_rpc_message")
 MM = importlib.import_module("chuk_mcp.protocol.messages.message_method")
 VER = importlib.import_module("chuk_mcp.protocol.types.versioning")
 JSONRPCMessage = JM.JSONRPCMessage
+import harness.h_C19 as _h19  # noqa: E402  installs the time.time stub (integer instants) and the uuid4 counter for the session store
 
 REQUEST_METHODS = ["initialize", "ping", "tools/list", "tools/call", "resources/list", "resources/read", "custom/ok", "custom/raise", "prompts/list"]
 NOTIF_METHODS = [m.value for m in MM.MessageMethod if m.name.startswith("NOTIFICATION_")]
